@@ -219,6 +219,13 @@ def rule_l5(repo):
                         (m.rel == THEORY and isinstance(n, ast.Assign) and any(is_name(t, 'thy') for t in n.targets)):
                     key = (m.rel, f.qualname)
                     ok = key in WRITERS
+                    # a restore of the value this function saved itself (`prev = theory.thy ... theory.thy = prev`) keeps the theory
+                    # of the caller, wherever the function lives
+                    if not ok and isinstance(n.value, ast.Name):
+                        from ..flow import flow_of
+                        fl = flow_of(f.node)
+                        ds = fl.defs.get(n.value.id, [])
+                        ok = bool(ds) and all(k == 'value' and path_of(v) == 'theory.thy' for k, v in ds) and n.value.id not in f.params()
                     res.add('%s :: %s :: write(theory.thy)@%s' % (m.rel, f.qualname, src(n.value, 30)), ok,
                             WRITERS.get(key, '') if ok else
                             '`%s` replaces the global theory outside the loader: later loads and parses see a different theory' % src(n),
